@@ -4,7 +4,7 @@ import os
 from vlib import Infra, read_ndjson
 
 
-def check_C08(run):
+def pipeline(run):
     run.build_harness()
     maxlen = 3 if run.tier == "thorough" else 2
     scen = os.path.join(run.scratch, "escen.ndjson")
@@ -20,6 +20,14 @@ def check_C08(run):
     run.fam = "enum"
     run.scen_files["enum"] = scen
     run.validate_obs("Obs_Enum", obs)
+    run.extra["enum_summary"] = summ
+    return obs
+
+
+def check_C08(run):
+    obs = pipeline(run)
+    summ = run.extra["enum_summary"]
+    maxlen = 3 if run.tier == "thorough" else 2
     kinds = set()
     for r in read_ndjson(obs):
         k = (str(r["src"]), str(r["tgt"]), str(r["map"]), r["unknown"], r["rootErr"], r["pos"], r["enumOn"], r.get("gen"), r.get("x"), str(r.get("res")))
